@@ -173,6 +173,46 @@ func c17Enumerate(tier string, emit explore.Emit) {
 				}})
 		})
 	})
+	// deep chains: all six kinds of decoration under / between / over up to 12 ordinary wrappers
+	{
+		kinds := []int{0, 2, 4, 6, 8, 11} // code, severity, hint, detail, constraint, source (indices into decorators())
+		wrap := -1
+		for i, d := range ds {
+			if d.kind == 'w' {
+				wrap = i
+			}
+		}
+		for wrapsBelow := 0; wrapsBelow <= 12; wrapsBelow += 2 {
+			for wrapsBetween := 0; wrapsBetween <= 2; wrapsBetween++ {
+				for wrapsAbove := 0; wrapsAbove <= 12; wrapsAbove += 3 {
+					var shape []int
+					for i := 0; i < wrapsBelow; i++ {
+						shape = append(shape, wrap)
+					}
+					for _, k := range kinds {
+						shape = append(shape, k)
+						for i := 0; i < wrapsBetween; i++ {
+							shape = append(shape, wrap)
+						}
+					}
+					for i := 0; i < wrapsAbove; i++ {
+						shape = append(shape, wrap)
+					}
+					emit(explore.Case{Family: "deep", Size: len(shape),
+						Desc: func() any { return map[string]any{"base": "boom", "shape_innermost_first": shapeNames(ds, shape)} },
+						Run: func() explore.Result {
+							var res explore.Result
+							res.Outcome = "decorated"
+							res.Key = fmt.Sprint("deep", shape)
+							var sink bytes.Buffer
+							wire.ErrorCode(buffer.NewWriter(harness.Quiet, &sink), buildErr(ds, "boom", shape))
+							c17Check(&res, sink.Bytes(), expectFields(ds, "boom", shape))
+							return res
+						}})
+				}
+			}
+		}
+	}
 	// every text field at every length around the sizes of the writer's internal buffers
 	for _, n := range c05TagLengths() {
 		if n == 0 {
